@@ -16,6 +16,15 @@ class BatchFailure(Exception):
     """Marker for an injected failing execution."""
 
 
+FAIL_EXC = {"BatchFailure": BatchFailure, "StopIteration": StopIteration, "KeyError": KeyError, "ValueError": ValueError,
+            "RuntimeError": RuntimeError, "IndexError": IndexError, "AttributeError": AttributeError, "TypeError": TypeError,
+            "ZeroDivisionError": ZeroDivisionError, "OSError": OSError}
+
+
+def fail_exc():
+    return FAIL_EXC.get((CONFIG.get("fail") or {}).get("exc", "BatchFailure"), BatchFailure)
+
+
 class Runaway(Exception):
     """Raised deterministically when a model is driven past its own completion (bounded-progress guard)."""
 
@@ -62,7 +71,7 @@ class Work(System):
         m.entry["ticks"].append(["work", t, m.is_running()])
         f = CONFIG.get("fail")
         if f and f.get("where") == "system" and m.fail_me and t == min(f.get("t", 0), max(0, m.stop_at - 1)):
-            raise BatchFailure(f"injected failure in system at t={t} of {m.sig}")
+            raise fail_exc()(f"injected failure in system at t={t} of {m.sig}")
         us = CONFIG.get("sleep_us")
         if us:
             time.sleep(((sum(ord(c) for c in m.sig) * 7919 + t * 104729) % us) / 1e6)
@@ -100,7 +109,7 @@ class BatchModel(Model):
             elif "sig" in f:
                 self.fail_me = self.sig == f["sig"]
             if self.fail_me and f.get("where") == "ctor":
-                raise BatchFailure(f"injected failure constructing {self.sig}")
+                raise fail_exc()(f"injected failure constructing {self.sig}")
         self.systems.add_system(Stopper(self))
         self.systems.add_system(Work(self))
         for name, freq in CONFIG.get("collectors_defined", [["col0", 1], ["col1", 2], ["col2", 1]]):
